@@ -4,6 +4,8 @@
 //!   oracle-sample  log oracle + implementation answers for TLC (channel B)
 mod cases;
 mod model;
+mod ops;
+mod sessions;
 mod sweep;
 mod util;
 
@@ -18,6 +20,7 @@ fn main() {
         "sweep" => sweep::main(&args[2..]),
         "oracle-sample" => sweep::oracle_sample(&args[2..]),
         "replay" => cases::main(&args[2..]),
+        "record" => sessions::main(&args[2..]),
         other => {
             eprintln!("unknown sub-command {}", other);
             std::process::exit(2);
